@@ -19,7 +19,7 @@ Variable pv : N.
 Variable sv : N.
 Variable bound : N.
 Variable u : counts.
-Variable fl : list (N * nat).
+Variable fl : list (N * kind).
 Variable W : world.
 
 Notation okstep := (okstep pv sv bound u fl W).
@@ -223,7 +223,7 @@ Lemma sc_branch n g k x2 ctx cb0 code_b vb cb1 c c' e st sc l E stL F t p cond (
   ucovers u code_b -> 1 <= count_of u t -> 1 <= count_of u vb ->
   bound <= c -> c <= cb0 -> cb1 <= c' -> c <= t < c' -> ~ (cb0 <= t < cb1) ->
   ctx_ok l F E cb0 cb1 -> rel sc e st E stL ->
-  sget (fmt_var t) E = Some p -> (forall lv, ~ w_IL W p lv) -> get_cell stL p = VBool lit -> alut_get l t = None ->
+  sget (fmt_var t) E = Some p -> (forall lv, ~ w_P W p lv) -> get_cell stL p = VBool lit -> alut_get l t = None ->
   denotes F E stL (aexpand l cond) (SV (Values.VBool go)) ->
   exists bl l',
     cshape u l (IIf cond :: (code_b ++ [IAssign t vb]) ++ [IEnd]) bl l' c c' /\ alut_get l' t = None /\
@@ -290,7 +290,7 @@ Proof.
       * split; [apply ExecS_one; eapply Exec_if; [exact Hevc | exact Hinner]|].
         split; [eapply wframe_trans; [apply lframe_w; exact Hfc | eapply wframe_forget; exact Hf23]|].
         split; [|split; [split; [apply incl_tl, incl_refl | intros t' [<-|Ht']; [right; exact Ht | left; exact Ht']] | apply keep_refl]].
-        eapply (rel_restrict pv sv bound u fl W sc e st e st2 E E2 stc stL3); [exact Hrelc | exact Hrel3 | eapply keep_trans; eassumption | apply (wr_ncell _ _ _ _ _ _ _ Hf23)].
+        eapply (rel_restrict pv sv bound u fl W sc e st e st2 E E2 stc stL3); [exact Hrelc | exact Hrel3 | eapply keep_trans; eassumption | apply (wr_incl _ _ _ _ _ _ _ Hf23) | apply (wr_ncell _ _ _ _ _ _ _ Hf23)].
       * eapply denotes_local; [left; reflexivity | exact Hp | rewrite Hc3; exact Hv3].
     + apply (Hfail (SyltSem.RStop o) st2 eq_refl); [intros v; discriminate | reflexivity].
     + apply (Hfail (SyltSem.RAbrupt cc) st2 eq_refl); [intros v; discriminate | reflexivity].
@@ -468,58 +468,124 @@ Proof.
     end.
 Qed.
 
-(* ------------------------------------------------------------------ the arguments of a call *)
-
-Lemma fun_arity_in f ar : fun_arity fl f = Some ar -> In (f, ar) fl.
+Lemma fun_kind_in f K : fun_kind fl f = Some K -> In (f, K) fl.
 Proof.
-  unfold fun_arity. destruct (find (fun fa => fst fa =? f) fl) as [[f' ar']|] eqn:Hf; [|discriminate].
-  intros H. inversion H; subst ar'. apply find_some in Hf as [Hin Heq]. cbn [fst] in Heq. apply N.eqb_eq in Heq. subst f'. exact Hin.
+  unfold fun_kind. destruct (find (fun fa => fst fa =? f) fl) as [[f' K']|] eqn:Hf; [|discriminate].
+  intros H. inversion H; subst K'. apply find_some in Hf as [Hin Heq]. cbn [fst] in Heq. apply N.eqb_eq in Heq. subst f'. exact Hin.
 Qed.
 
+(* one argument of a call: a plain expression, or the name of a function of the kind the parameter wants *)
+Definition arg_frag (k : nat) (sc : list N) (K : kind) (a : Resolved.expr) : Prop :=
+  match K with
+  | KP => frag_expr pv sv bound fl k sc a = true
+  | KF _ _ => exists K', frag_fexpr fl a = Some K' /\ kind_eqb K' K = true
+  end.
+
+Lemma frag_args_inv k sc : forall ks args, frag_args pv sv bound fl k sc ks args = true -> Forall2 (arg_frag k sc) ks args.
+Proof.
+  induction ks as [|K ks IH]; intros [|a args] H; cbn [frag_args] in H; try discriminate; [constructor | destruct K; discriminate |].
+  destruct K.
+  - apply andb_prop in H as [Ha Hr]. constructor; [exact Ha | apply IH; exact Hr].
+  - apply andb_prop in H as [Ha Hr]. constructor; [|apply IH; exact Hr].
+    cbn [arg_frag]. destruct (frag_fexpr fl a) as [K'|]; [|discriminate Ha]. exists K'. split; [reflexivity | exact Ha].
+Qed.
+
+Lemma arg_frag_ok k sc K a : arg_frag k sc K a -> arg_ok pv sv bound fl k sc a.
+Proof.
+  destruct K; cbn [arg_frag]; [intros H; left; exact H|]. intros (K' & H & _). right. destruct a; try discriminate H. eauto.
+Qed.
+
+Lemma arg_sim n g : P_eval n ->
+  forall K a k ctx c code_a va c1 e st r st1 sc l E stL F,
+    arg_frag k sc K a ->
+    SyltSem.eval n e a st = (r, st1) -> expression (S g) a ctx c = Ok ((code_a, va), c1) ->
+    ucovers u code_a -> 1 <= count_of u va -> ctx_ok l F E c c1 -> rel sc e st E stL -> interesting r ->
+    exists b l', cshape u l code_a b l' c c1 /\ c <= va /\ va < c1 /\
+      match r with
+      | SyltSem.RVal y => exists E' stL' F', okstep sc e st1 F c c1 E stL b E' stL' F' /\ adenotes W K F' E' stL' (aexpand l' va) y
+      | _ => xpost ctx sc e c c1 E stL b r st1
+      end.
+Proof.
+  intros IH K a k ctx c code_a va c1 e st r st1 sc l E stL F Hfa Hev Hlow Hu Hcva Hctx Hrel Hint.
+  destruct K; cbn [arg_frag] in Hfa.
+  - destruct (IH (S g) k a ctx c code_a va c1 e st r st1 sc l E stL F Hev Hlow Hfa Hu Hctx Hrel Hint) as (b & l' & Hs & H1 & H2 & Hp).
+    exists b, l'. split; [exact Hs|]. split; [exact H1|]. split; [exact H2|].
+    destruct r as [y|o|cc]; [|exact Hp | exact Hp]. cbn [eval_post] in Hp. destruct Hp as (E' & stL' & F' & Hok & Hd).
+    exists E', stL', F'. split; [exact Hok | exact (Hd Hcva)].
+  - destruct Hfa as (K' & Hf & Hk). apply kind_eqb_eq in Hk. subst K'.
+    destruct a; try discriminate Hf. cbn [frag_fexpr] in Hf.
+    destruct (fun_kind fl var) as [Kf|] eqn:Hfk; [|discriminate Hf]. destruct Kf; [discriminate Hf|]. inversion Hf; subst. clear Hf.
+    apply fun_kind_in in Hfk.
+    destruct (r_fund _ _ _ _ _ _ _ _ _ _ _ var _ Hrel Hfk) as (cf & pf & d & Hlkf & Hnthf & Hpf & Hcellf & Hd & Hdk).
+    assert (Hvarb : var < bound).
+    { destruct (r_flb _ _ _ _ _ _ _ _ _ _ _ Hrel var); [|assumption]. unfold fnames. apply in_map_iff. eexists. split; [|exact Hfk]. reflexivity. }
+    cbn [expression] in Hlow. mon Hlow. fresh_all. inj_code.
+    destruct n as [|n']; [cbn in Hev; inversion Hev; subst; destruct Hint|].
+    cbn [SyltSem.eval] in Hev. rewrite Hlkf in Hev. unfold SyltSem.read_cell in Hev. rewrite Hnthf in Hev. inversion Hev; subst r st1. clear Hev.
+    destruct (step_copy_fun pv sv bound u fl W sc e st F c (c + 1) E stL l c var pf (fd_fid d) Hrel Hctx ltac:(lia) Hcva Hvarb Hpf Hcellf) as (E1 & stL1 & F1 & Hok1 & Hdf).
+    eexists _, _. split; [apply cshape_plain; [lia | reflexivity | reflexivity | apply used_plain]|].
+    split; [lia|]. split; [lia|].
+    exists E1, stL1, F1. split; [exact Hok1|]. cbn [adenotes]. exists d. auto.
+Qed.
+
+Lemma adenotes_step K sc e st F1 F2 c0 c1 E1 stL1 b E2 stL2 ex av :
+  adenotes W K F1 E1 stL1 ex av -> okstep sc e st F1 c0 c1 E1 stL1 b E2 stL2 F2 -> F_out bound F1 c0 c1 ->
+  adenotes W K F2 E2 stL2 ex av.
+Proof.
+  intros Hd (_ & Hf & _ & (Hi & _) & _) Ho. eapply adenotes_mono; [exact Hd | eapply fut_wframe; eassumption | exact Hi].
+Qed.
+
+(* the arguments of a call *)
 Lemma args_sim n g : P_eval n ->
-  forall args k ctx c rs c' cend e st ra st' sc l E stL F,
+  forall ks args k ctx c rs c' cend e st ra st' sc l E stL F,
     SyltSem.mapM (SyltSem.eval n e) args st = (ra, st') ->
-    mapM (fun a => expression g a ctx) args c = Ok (rs, c') ->
-    forallb (frag_expr pv sv bound fl k sc) args = true ->
+    mapM (fun a => expression (S g) a ctx) args c = Ok (rs, c') ->
+    Forall2 (arg_frag k sc) ks args ->
     ucovers u (concat (map fst rs)) -> (forall r, In r rs -> 1 <= count_of u (snd r)) ->
     c' <= cend -> ctx_ok l F E c cend -> rel sc e st E stL -> interesting ra ->
     exists b l', cshape u l (concat (map fst rs)) b l' c c' /\
       match ra with
       | SyltSem.RVal avs =>
           exists E' stL' F', okstep sc e st' F c c' E stL b E' stL' F' /\ ctx_ok l' F' E' c' cend /\
-            Forall2 (fun av t => denotes F' E' stL' (aexpand l' t) av) avs (map snd rs)
+            Forall3 (fun K av t => adenotes W K F' E' stL' (aexpand l' t) av) ks avs (map snd rs)
       | _ => xpost ctx sc e c c' E stL b ra st'
       end.
 Proof.
-  intros IH. induction args as [|a args IHa]; intros k ctx c rs c' cend e st ra st' sc l E stL F Hev Hm Hf Hu Hcnt Hce Hctx Hrel Hint.
-  - destruct (mapM_nil_ok _ _ _ _ Hm) as [-> ->]. cbn in Hev. inversion Hev; subst ra st'.
+  intros IH. induction ks as [|K ks IHa]; intros args k ctx c rs c' cend e st ra st' sc l E stL F Hev Hm Hf Hu Hcnt Hce Hctx Hrel Hint.
+  - inversion Hf; subst. destruct (mapM_nil_ok _ _ _ _ Hm) as [-> ->]. cbn in Hev. inversion Hev; subst ra st'.
     eexists _, _. split; [apply cshape_nil|]. exists E, stL, F.
     split; [apply okstep_refl; exact Hrel | split; [exact Hctx | constructor]].
-  - apply mapM_cons_ok in Hm as (y & c1 & ys & Hy & Hys & ->). destruct y as [code_a va].
-    cbn [forallb] in Hf. apply andb_prop in Hf as [Hfa Hfs].
+  - inversion Hf as [|? a ? args' Hfa Hfs]; subst.
+    apply mapM_cons_ok in Hm as (y & c1 & ys & Hy & Hys & ->). destruct y as [code_a va].
     cbn [map concat fst snd] in *. apply ucovers_app in Hu as [Hua Hus].
     assert (Hcva : 1 <= count_of u va) by (apply (Hcnt (code_a, va)); left; reflexivity).
     assert (Hcnts : forall r, In r ys -> 1 <= count_of u (snd r)) by (intros r Hr; apply Hcnt; right; exact Hr).
-    destruct (L_expr_all pv sv bound u fl g k a ctx c code_a va c1 sc l Hy Hfa) as (_ & _ & (_ & Hcc1 & _) & Hva1 & Hva2).
+    assert (Hoks : Forall (arg_ok pv sv bound fl k sc) args').
+    { clear - Hfs. induction Hfs; constructor; [eapply arg_frag_ok; eassumption | assumption]. }
     assert (HLr : forall l0, exists b2 l2, cshape u l0 (concat (map fst ys)) b2 l2 c1 c')
-      by (intros l0; destruct (L_args pv sv bound u fl g (L_expr_all pv sv bound u fl g) args k ctx c1 ys c' sc l0 Hys Hfs) as (b2 & l2 & H2 & _); eauto).
+      by (intros l0; destruct (L_args pv sv bound u fl g (L_expr_all pv sv bound u fl (S g)) args' k ctx c1 ys c' sc l0 Hys Hoks) as (b2 & l2 & H2 & _); eauto).
     destruct (HLr l) as (_ & _ & (_ & Hc1c' & _)).
+    assert (Hcc1 : c <= c1).
+    { destruct (L_args pv sv bound u fl g (L_expr_all pv sv bound u fl (S g)) [a] k ctx c [(code_a, va)] c1 sc l) as (_ & _ & (_ & H & _) & _); [|constructor; [eapply arg_frag_ok; eassumption | constructor]|exact H].
+      cbn [mapM]. unfold IR.bind, IR.ret. rewrite Hy. reflexivity. }
     assert (Hctxa : ctx_ok l F E c c1) by (eapply ctx_sub; [exact Hctx | lia | lia]).
     cbn [SyltSem.mapM] in Hev. unfold SyltSem.bind at 1 in Hev.
-    destruct (SyltSem.eval n e a st) as [[y|o|cc] st1] eqn:Hy1.
-    2,3: (inversion Hev; subst ra st';
-          destruct (IH g k a ctx c code_a va c1 e st _ st1 sc l E stL F Hy1 Hy Hfa Hua Hctxa Hrel Hint) as (b1 & l1 & Hs1 & _ & _ & Hp1);
-          destruct (HLr l1) as (b2 & l2 & Hs2);
-          eexists _, _; (split; [eapply cshape_app; eassumption|]); cbn [eval_post] in Hp1; eapply (exit_app pv sv bound u fl W ctx sc e c c1 c'); [exact Hp1 | exact Hc1c']).
-    destruct (IH g k a ctx c code_a va c1 e st _ st1 sc l E stL F Hy1 Hy Hfa Hua Hctxa Hrel I)
-      as (b1 & l1 & Hs1 & _ & _ & E1 & stL1 & F1 & Hok1 & Hd1). specialize (Hd1 Hcva).
+    destruct (SyltSem.eval n e a st) as [ry st1] eqn:Hy1.
+    assert (Hinty : interesting ry).
+    { destruct ry as [y|o|cc]; [exact I | |]; inversion Hev; subst; exact Hint. }
+    destruct (arg_sim n g IH K a k ctx c code_a va c1 e st ry st1 sc l E stL F Hfa Hy1 Hy Hua Hcva Hctxa Hrel Hinty)
+      as (b1 & l1 & Hs1 & Hva1 & Hva2 & Hp1).
+    destruct ry as [y|o|cc].
+    2,3: (inversion Hev; subst ra st'; destruct (HLr l1) as (b2 & l2 & Hs2);
+          eexists _, _; (split; [eapply cshape_app; eassumption|]); eapply (exit_app pv sv bound u fl W ctx sc e c c1 c'); [exact Hp1 | exact Hc1c']).
+    destruct Hp1 as (E1 & stL1 & F1 & Hok1 & Hd1).
     pose proof Hok1 as (_ & _ & Hrel1 & _).
     assert (Hctx1 : ctx_ok l1 F1 E1 c1 cend) by (eapply ctx_after; eassumption).
     unfold SyltSem.bind at 1 in Hev.
-    destruct (SyltSem.mapM (SyltSem.eval n e) args st1) as [rr st2] eqn:Hrest.
+    destruct (SyltSem.mapM (SyltSem.eval n e) args' st1) as [rr st2] eqn:Hrest.
     assert (Hintr : interesting rr).
     { destruct rr as [ys_|o|cc]; [exact I | |]; cbn in Hev; inversion Hev; subst; exact Hint. }
-    destruct (IHa k ctx c1 ys c' cend e st1 rr st2 sc l1 E1 stL1 F1 Hrest Hys Hfs Hus Hcnts Hce Hctx1 Hrel1 Hintr)
+    destruct (IHa args' k ctx c1 ys c' cend e st1 rr st2 sc l1 E1 stL1 F1 Hrest Hys Hfs Hus Hcnts Hce Hctx1 Hrel1 Hintr)
       as (b2 & l2 & Hs2 & Hpost).
     eexists _, _. split; [eapply cshape_app; eassumption|].
     destruct rr as [ys_|o|cc]; cbn in Hev; inversion Hev; subst ra st'; clear Hev.
@@ -529,7 +595,7 @@ Proof.
       replace (aexpand l2 va) with (aexpand l1 va)
         by (unfold aexpand; destruct Hs2 as (_ & _ & Hfr2 & _); rewrite Hfr2 by lia; reflexivity).
       assert (Hctx1' : ctx_ok l1 F1 E1 c1 c') by (eapply ctx_sub; [exact Hctx1 | lia | exact Hce]).
-      eapply denotes_step; [exact Hd1 | exact Hok2 | apply (cx_F _ _ _ _ _ _ Hctx1')].
+      eapply adenotes_step; [exact Hd1 | exact Hok2 | apply (cx_F _ _ _ _ _ _ Hctx1')].
     + eapply okstep_exit; [exact Hok1 | exact Hrel | exact Hpost | lia | lia].
     + eapply okstep_exit; [exact Hok1 | exact Hrel | exact Hpost | lia | lia].
 Qed.
@@ -635,7 +701,7 @@ Lemma branches_sim n g : P_eval n -> P_bv n ->
     frag_branches pv sv bound fl k sc brs = true ->
     ucovers u (concat codes ++ map (fun _ => IEnd) brs) -> ctx_ok l F E c c' -> rel sc e st E stL ->
     bound <= lo -> lo <= c -> c' <= hi -> lo <= out < hi -> ~ (c <= out < c') ->
-    sget (fmt_var out) E = Some p -> (forall lv, ~ w_IL W p lv) -> get_cell stL p = VNil -> alut_get l out = None -> 1 <= count_of u out ->
+    sget (fmt_var out) E = Some p -> (forall lv, ~ w_P W p lv) -> get_cell stL p = VNil -> alut_get l out = None -> 1 <= count_of u out ->
     ~ In out F ->
     interesting r ->
     exists b l', cshape u l (concat codes ++ map (fun _ => IEnd) brs) b l' c c' /\ alut_get l' out = None /\
@@ -742,7 +808,7 @@ Proof.
         eapply okstep_trans'; [exact Hokc|].
         eapply (okstep_if sc e st1 st' F1 lo hi E1 stL1 (aexpand l1 vc) bb br (VBool false) stc Ein stL'); try assumption.
         -- cbn [truthy]. apply Hs3.
-        -- eapply (rel_restrict pv sv bound u fl W sc e st1 e st' E1 Ein stc stL'); [exact Hrelc | exact Hrelr | exact Hkr | apply (wr_ncell _ _ _ _ _ _ _ Hfr')].
+        -- eapply (rel_restrict pv sv bound u fl W sc e st1 e st' E1 Ein stc stL'); [exact Hrelc | exact Hrelr | exact Hkr | apply (wr_incl _ _ _ _ _ _ _ Hfr') | apply (wr_ncell _ _ _ _ _ _ _ Hfr')].
         -- split; [apply (wr_ncell _ _ _ _ _ _ _ Hfr')|]. intros t q Hbt Hr Hq. apply (wr_cells _ _ _ _ _ _ _ Hfr' t q Hbt Hr Hq).
       * eapply okstep_exit'; [exact Hokc | exact Hrel |].
         eapply (exit_if pv sv bound u fl W ctx sc e lo hi E1 stL1 (aexpand l1 vc) bb br (VBool false) stc); [exact Hwf1 | exact Hevc | exact Hxc | cbn [truthy]; apply Hs3 | exact Hpr].
@@ -821,17 +887,18 @@ Proof.
     cbn [eval_post]. exists E', stL', F'. split; [exact Hok | exact Hden].
   - (* ECall *)
     destruct x; try discriminate Hfrag.
+    assert (Hfrag' : frag_expr pv sv bound fl (S k) sc (Resolved.ECall (ERead var sp0) args sp) = true) by exact Hfrag.
+    rewrite frag_expr_call in Hfrag'. clear Hfrag. rename Hfrag' into Hfrag.
     destruct (N.eqb_spec var pv) as [->|Hnpv].
     2: { (* f(a1, ..., an) *)
-      destruct (fun_arity fl var) as [ar|] eqn:Har; [|discriminate Hfrag].
-      apply andb_prop in Hfrag as [Hlen Hfr]. apply Nat.eqb_eq in Hlen.
-      apply fun_arity_in in Har.
-      pose proof (r_world _ _ _ _ _ _ _ _ _ _ _ Hrel) as HW.
-      destruct (wi_cover _ _ _ _ _ _ _ _ _ _ _ HW var ar Har) as (d & Hd & Hdv & Hdar). subst var.
-      assert (Hvis : In (fd_var d) (fnames fl)) by (unfold fnames; change (fd_var d) with (fst (fd_var d, ar)); apply in_map; exact Har).
-      destruct (wi_visS _ _ _ _ _ _ _ _ _ _ _ HW d Hd Hvis) as [Hlkf _].
-      destruct (wi_fun _ _ _ _ _ _ _ _ _ _ _ HW d Hd) as (Hst & HIS & _).
-      pose proof (wi_IS _ _ _ _ _ _ _ _ _ _ _ HW _ _ HIS) as Hnthf.
+      destruct (fun_kind fl var) as [Kf|] eqn:Har; [|discriminate Hfrag].
+      destruct Kf as [|ks [|? ?]]; try discriminate Hfrag.
+      apply fun_kind_in in Har.
+      destruct (r_fund _ _ _ _ _ _ _ _ _ _ _ var _ Hrel Har) as (cf & pf & d & Hlkf & Hnthf & Hpf & Hcellf & Hd & Hdk).
+      assert (Hpk : fd_pk d = ks) by (unfold dkind in Hdk; inversion Hdk; reflexivity). subst ks.
+      assert (Hvarb : var < bound).
+      { destruct (r_flb _ _ _ _ _ _ _ _ _ _ _ Hrel var); [|assumption]. unfold fnames. apply in_map_iff. eexists. split; [|exact Har]. reflexivity. }
+      pose proof (frag_args_inv k sc _ args Hfrag) as Hfr.
       cbn [expression] in Hlow. mon Hlow.
       destruct g as [|g']; [discriminate|].
       cbn [expression] in Hm. mon Hm. fresh_all. inj_code. rename a0 into rs. rename c1 into ca.
@@ -848,7 +915,9 @@ Proof.
       assert (Hia : interesting ra).
       { destruct ra; cbn in Hev; [exact I | inversion Hev; subst; exact Hint | inversion Hev; subst; exact Hint]. }
       (* structure and usage counts *)
-      destruct (L_args pv sv bound u fl (S g') (L_expr_all pv sv bound u fl (S g')) args k ctx (c + 1) rs ca sc l Hm0 Hfr)
+      assert (Hoks : Forall (arg_ok pv sv bound fl k sc) args).
+      { clear - Hfr. induction Hfr; constructor; [eapply arg_frag_ok; eassumption | assumption]. }
+      destruct (L_args pv sv bound u fl g' (L_expr_all pv sv bound u fl (S g')) args k ctx (c + 1) rs ca sc l Hm0 Hoks)
         as (_ & _ & (_ & Hca & _) & Hrsr).
       apply ucovers_cons in Hu as [_ Hu]. apply ucovers_app in Hu as [Hua Huc].
       assert (Hcc : 1 <= count_of u c) by (eapply Huc; [left; reflexivity | cbn [ir_uses]; left; reflexivity]).
@@ -856,27 +925,27 @@ Proof.
       { intros r0 Hr0. eapply Huc; [left; reflexivity | cbn [ir_uses]; right; apply in_map; exact Hr0]. }
       (* the callee *)
       assert (Hctx0 : ctx_ok l F E c (c + 1)) by (eapply ctx_sub; [exact Hctx | lia | lia]).
-      destruct (step_copy_fun pv sv bound u fl W sc e st F c (c + 1) E stL l c d Hrel Hctx0 ltac:(lia) Hcc Hd Hvis) as (E1 & stL1 & F1 & Hok1 & Hdf).
-      assert (Hs0 : cshape u l [ICopy c (fd_var d)] (fst (agen_one u l (ICopy c (fd_var d)))) l c (c + 1))
+      destruct (step_copy_fun pv sv bound u fl W sc e st F c (c + 1) E stL l c var pf (fd_fid d) Hrel Hctx0 ltac:(lia) Hcc Hvarb Hpf Hcellf) as (E1 & stL1 & F1 & Hok1 & Hdf).
+      assert (Hs0 : cshape u l [ICopy c var] (fst (agen_one u l (ICopy c var))) l c (c + 1))
         by (apply cshape_plain; [lia | reflexivity | reflexivity | apply used_plain]).
       assert (Hctx1 : ctx_ok l F1 E1 (c + 1) (ca + 1)) by (eapply (ctx_after sc e st l F E stL c (c + 1) (ca + 1)); [exact Hctx | exact Hs0 | exact Hok1]).
       pose proof Hok1 as (Hx1 & _ & Hrel1 & _).
       (* the arguments *)
-      destruct (args_sim (S n') (S g') IH args k ctx (c + 1) rs ca (ca + 1) e st ra st1 sc l E1 stL1 F1 Hy Hm0 Hfr Hua Hcnt ltac:(lia) Hctx1 Hrel1 Hia)
+      destruct (args_sim (S n') g' IH (fd_pk d) args k ctx (c + 1) rs ca (ca + 1) e st ra st1 sc l E1 stL1 F1 Hy Hm0 Hfr Hua Hcnt ltac:(lia) Hctx1 Hrel1 Hia)
         as (b_a & l1 & Hsa & Hpa).
-      assert (Hs01 : cshape u l (ICopy c (fd_var d) :: concat (map fst rs)) (fst (agen_one u l (ICopy c (fd_var d))) ++ b_a) l1 c ca)
+      assert (Hs01 : cshape u l (ICopy c var :: concat (map fst rs)) (fst (agen_one u l (ICopy c var)) ++ b_a) l1 c ca)
         by (eapply cshape_cons; eassumption).
-      assert (Hshape : cshape u l (ICopy c (fd_var d) :: concat (map fst rs) ++ [ICall ca c (map snd rs)])
-                         ((fst (agen_one u l (ICopy c (fd_var d))) ++ b_a) ++ fst (agen_one u l1 (ICall ca c (map snd rs)))) l1 c (ca + 1)).
-      { change (ICopy c (fd_var d) :: concat (map fst rs) ++ [ICall ca c (map snd rs)])
-          with ((ICopy c (fd_var d) :: concat (map fst rs)) ++ [ICall ca c (map snd rs)]).
+      assert (Hshape : cshape u l (ICopy c var :: concat (map fst rs) ++ [ICall ca c (map snd rs)])
+                         ((fst (agen_one u l (ICopy c var)) ++ b_a) ++ fst (agen_one u l1 (ICall ca c (map snd rs)))) l1 c (ca + 1)).
+      { change (ICopy c var :: concat (map fst rs) ++ [ICall ca c (map snd rs)])
+          with ((ICopy c var :: concat (map fst rs)) ++ [ICall ca c (map snd rs)]).
         eapply cshape_app; [exact Hs01|]. apply (cshape_plain u l1 (ICall ca c (map snd rs)) ca (ca + 1)); [lia | reflexivity | reflexivity | reflexivity]. }
       eexists _, _. split; [exact Hshape|]. split; [lia|]. split; [lia|].
       destruct ra as [avs|o|cc]; cbn in Hev.
       - (* the arguments have values: the call *)
         destruct Hpa as (E2 & stL2 & F2 & Hok2 & Hctx2 & Hds).
         pose proof Hok2 as (_ & _ & Hrel2 & _).
-        assert (Hok12 : okstep sc e st1 F c ca E stL (fst (agen_one u l (ICopy c (fd_var d))) ++ b_a) E2 stL2 F2)
+        assert (Hok12 : okstep sc e st1 F c ca E stL (fst (agen_one u l (ICopy c var)) ++ b_a) E2 stL2 F2)
           by (eapply okstep_trans; [exact Hok1 | exact Hok2 | lia | lia]).
         assert (Hdf2 : ldenotes F2 E2 stL2 (aexpand l1 c) (VFun (fd_fid d))).
         { replace (aexpand l1 c) with (aexpand l c).
@@ -884,7 +953,7 @@ Proof.
             eapply ldenotes_step; [exact Hdf | exact Hok2 | apply (cx_F _ _ _ _ _ _ Hctx1')].
           - unfold aexpand. destruct Hsa as (_ & _ & Hfr1 & _). rewrite Hfr1 by lia. reflexivity. }
         pose proof (step_call_fun pv sv bound u fl W (S n') ctx sc e st1 F2 ca (ca + 1) E2 stL2 l1 ca c (map snd rs) avs d r st'
-                      IHap Hrel2 Hctx2 ltac:(lia) Hd Hvis Hdf2 Hds Hev Hint) as Hcall.
+                      IHap Hrel2 Hctx2 ltac:(lia) Hd Hdf2 Hds Hev Hint) as Hcall.
         destruct r as [rv|o|cc]; cbn [eval_post].
         + destruct Hcall as (E3 & stL3 & F3 & Hok3 & Hd3).
           exists E3, stL3, F3. split; [|intros _; exact Hd3].
@@ -909,7 +978,7 @@ Proof.
     (* the reference interpreter *)
     cbn [SyltSem.eval] in Hev.
     destruct n as [|n']; [cbn in Hev; inversion Hev; subst; destruct Hint|].
-    destruct (r_print _ _ _ _ _ _ _ _ _ _ _ Hrel) as (cp & Hlkp & Hnthp & _).
+    destruct (r_print _ _ _ _ _ _ _ _ _ _ _ Hrel) as (cp & Hlkp & Hnthp).
     apply sbind_inv in Hev as [(fv & st1 & Hfv & Hev) | [(o & Hfv & ->) | (cc & Hfv & ->)]].
     2,3: cbn [SyltSem.eval] in Hfv; rewrite Hlkp in Hfv; unfold SyltSem.read_cell in Hfv; rewrite Hnthp in Hfv; discriminate.
     cbn [SyltSem.eval] in Hfv. rewrite Hlkp in Hfv. unfold SyltSem.read_cell in Hfv. rewrite Hnthp in Hfv.
